@@ -2,7 +2,7 @@
 from core import run_cases
 
 MODULES = ["Props.C19"]
-THEOREMS = ["Props.C19.c19_cache_roundtrip", "Props.C19.split_join"]
+THEOREMS = ["Props.C19.c19_cache_roundtrip_csv", "Props.C19.c19_cache_roundtrip", "Props.C19.split_join"]
 
 
 def run(check, tier):
@@ -30,9 +30,25 @@ def run(check, tier):
         if res["disagree"] and not res["oracle"]:
             check.break_("correspondence suite `jobs`: " + res["disagree"][0]["what"], {"input": c})
     check.extra["jobs_run"] = njobs
+    # the header cache by itself against Model.Cache.store / load
+    hn = 400 if tier == "quick" else 20000
+    for res in run_cases("jobs_suite", "case_hdrcache", [S.gen_hdr(check.seed, i) for i in range(hn)], chunk=50):
+        if "infra_error" in res:
+            check.infra.append(res["infra_error"] + res.get("trace", "")[-700:])
+            continue
+        check.evaluations += 1
+        check.count("header_lists_cached")
+        if res.get("inside"):
+            check.count("header_lists_inside_theorem")
+        if res["nontrivial"]:
+            check.count("header_lists_with_comma_quote_or_linefeed")
+        for o in res["oracle"]:
+            check.violation(o["what"], {"input": res["case"], "oracle": [o]})
+        if res["disagree"] and not res["oracle"]:
+            check.break_("correspondence suite `jobs`/header cache: " + res["disagree"][0]["what"], {"input": res["case"], "disagreements": res["disagree"]})
     check.extra["rule"] = ("sequences of 2-6 generated (csvpath, file) jobs in one process; every job is first run alone in a fresh subprocess and must give the "
                            "same lines, variables, printouts, errors, headers and verdict in sequence, when repeated, and through CsvPaths.csvpath() with a "
                            "cold and a warm cache; 40% of the files have header cells with spaces, quotes and delimiter-like characters; non-trivial = at "
                            "least two jobs return lines")
     check.assumptions.append("PARTIAL: process-global Python state (module registries, warnings filters, logger handlers) cannot be exhibited in a pure model; "
-                             "history-independence is tested against fresh processes. The cache round trip is proved for safe header lists.")
+                             "history-independence is tested against fresh processes. The header cache round trip is proved for every header list on the csv model (c19_cache_roundtrip_csv).")
